@@ -209,9 +209,12 @@ class Ev:
                 # bounded unrolling attempt: keep going while the iteration count stays small
                 n = st.iters.get(key, 0) + 1
                 self.unroll_work += 1
-                if n > max(self.UNROLL_MAX, self.unroll_bounds.get(key, 0) + 1) or self.unroll_work > 20000:
+                if n > max(self.UNROLL_MAX, self.unroll_bounds.get(key, 0) + 1) or self.unroll_work > 3000:
                     raise UnrollFail()
                 st.iters[key] = n
+                # loop-carried values that feed on themselves (a cursor advanced by a length read at the cursor) grow geometrically
+                if n >= 3 and (any(T.tree_size(v, 2000) >= 2000 for loc, v in st.store.items() if loc[0] == fr.fid) or any(T.tree_size(a, 2000) >= 2000 for a in st.pc[-4:])):
+                    raise UnrollFail()
                 return self.exec_block(fr, b, st)
             self.loopbacks.setdefault((fr.fid, b), []).append(st)
             return []
@@ -220,6 +223,8 @@ class Ev:
         return self.exec_block(fr, b, st)
 
     UNROLL_MAX = 12
+    UNROLL_BLOCKS = 8000
+    unroll_blocks = 0
 
     def unroll_hint(self, n):
         """an iterator over a sequence of constant length n was stepped: loops over it end after n iterations"""
@@ -233,6 +238,8 @@ class Ev:
         if key not in self.unrolling:
             self.unrolling.add(key)
             self.unroll_work = 0
+            if len(self.unrolling) == 1:
+                self.unroll_blocks = 0
             self.unroll_bounds[key] = 0
             n_obls, n_extra, n_loops = len(self.all_obls), len(self.extra_obls), len(self.loops)
             try:
@@ -310,6 +317,12 @@ class Ev:
     def exec_block(self, fr, b, st):
         blk = fr.fn['blocks'][b]
         fid = fr.fid
+        if self.unrolling:
+            # an unrolling attempt is abandoned (and the loop widened instead) once it has cost this many blocks: loops whose
+            # iterations fork (an inlined callee with several outcomes per iteration) multiply paths instead of ending
+            self.unroll_blocks += 1
+            if self.unroll_blocks > self.UNROLL_BLOCKS:
+                raise UnrollFail()
         for s in blk['stmts']:
             k = s['k']
             if k == 'assign':
@@ -780,6 +793,8 @@ class Ev:
                 width = rd[1] - rd[0] + 1
                 x = (v[1] - rd[0]) % width + rd[0]
                 return T.I(x)
+            if dst == 'u8' and rs[0] == 0 and v[0] == 'shr' and v[2][0] == 'int' and v[2][1] % 8 == 0:
+                return T.mk_byte(0, v)      # one canonical form for a byte of x, whether or not the shift already leaves a single byte
             if solver.entails(st.pc, self.int_range_cond(v, dst)):
                 return v
             if dst == 'u8' and rs[0] == 0:
